@@ -242,6 +242,16 @@ def main(tier):
     proof = common.proof_obligations("C20")
     n_defs = 150 if tier == "quick" else 2000
     tie = b1.run_b1("C20", P(), n_defs, 1, common.seed())
+    # Default on unions (the clause "Default initialises exactly the designated field with its expression or the field type's
+    # default"): C08's generator restricted to unions - sole fields with and without marker or expression, markers and
+    # expressions at every position of 2-3-field unions
+    from . import c08
+    tie_d = b1.run_b1("C20", c08.P(kinds=("union",)), 80 if tier == "quick" else 800, 1, common.seed() + 3)
+    for k in ("failing", "broken", "broken_details"):
+        tie[k] += tie_d[k]
+    tie["evaluations"] += tie_d["evaluations"]
+    tie["extra"]["union_default_definitions"] = tie_d["extra"].get("definitions", 0)
+    tie["rule"] += "; Default tie: " + (tie_d.get("rule") or "")[:300]
     import random
     refusal_tie(tie, random.Random(common.seed() + 7), 200 if tier == "quick" else 3000)
     clone_bound_tie(tie, random.Random(common.seed() + 11), 100 if tier == "quick" else 1500)
